@@ -57,7 +57,10 @@ def run(prog: Program, rep, tier: str) -> None:
     gates(prog, rep)
     residuals(prog, rep)
     # (3) + (4): exponents, inverse pairs, restore wiring, slack layout  (C04's rules on the same constructs)
-    sub = _SubReport(rep, keep=("scaling-exponents", "inverse-pairs", "restore-wiring", "slack-layout", "pipeline-order"))
+    # the slack embedding is what turns the sign of the bound multiplier of slack i into the sign condition on y_i
+    # (d/ds_i: -y_i + d_si = 0), so its agreement rules are necessary conditions here as well
+    sub = _SubReport(rep, keep=("scaling-exponents", "inverse-pairs", "restore-wiring", "slack-layout", "pipeline-order", "slack-jacobian", "slack-padding",
+                                "slack-bounds", "slack-cons", "slack-rows", "slack-offsets"))
     c04.run_scaling_only(prog, sub)
     c04.slack_embedding(prog, sub)
     c04.pipeline(prog, sub)
@@ -304,6 +307,44 @@ def residuals(prog: Program, rep) -> None:
     ok = len(ev) == 1 and all(k in U(ev[0].stmt.value) for k in ("*lb_events", "*ub_events", "*grad_fixed_events", "self.converged_event()", "self.unbounded_event()", "self.penalty_event("))
     rep.check(ok, "pinned-variables-watched", ce.qualname, "events = [...]", "all event families (bounds, pinned gradients, convergence, unboundedness, penalty) are handed to the integrator", ce.loc())
     rep.pin("pinned-variable skip sites", n, 1)
+    # event functions and crossing directions
+    sw = prog.cls("pygradflow.integration.problem_switches.ProblemSwitches")
+
+    def event_of(mname):
+        m = sw.methods[mname]
+        inner = list(m.nested.values())
+        if len(inner) != 1:
+            raise AnalysisError(f"ProblemSwitches.{mname}: expected one event closure")
+        ev = inner[0]
+        rs = returns_of(ev)
+        fm = facts_for(m)
+        last = fm.order[-1]
+        body = facts_for(ev).resolved(rs[0], rs[0].value) if len(rs) == 1 else None
+        if body is not None:
+            body = resolve(body, {k: w for k, w in last.env.items() if k not in ev.params})
+        dirs = [(U(s.stmt.value), s.facts) for s in fm.order if isinstance(s.stmt, ast.Assign) and isinstance(s.stmt.targets[0], ast.Attribute)
+                and s.stmt.targets[0].attr == "direction" and U(s.stmt.targets[0].value) == ev.name]
+        return m, ev, body, dirs
+
+    m, ev, body, dirs = event_of("lb_event")
+    zp = ev.params[-1]
+    j = [p for p in m.params if p != "self"][0]
+    ok = body is not None and U(body) == f"__item__(self.flow.split_states({zp}), 0)[{j}] - self.problem.var_lb[{j}]" and [d for d, _ in dirs] == ["-1.0"]
+    rep.check(ok, "event-sign-table", m.qualname, "x[j] - lb[j], direction -1", "the lower-bound event is x_j - lb_j crossing downwards", m.loc())
+    m, ev, body, dirs = event_of("ub_event")
+    zp = ev.params[-1]
+    ok = body is not None and U(body) == f"__item__(self.flow.split_states({zp}), 0)[{j}] - self.problem.var_ub[{j}]" and [d for d, _ in dirs] == ["1.0"]
+    rep.check(ok, "event-sign-table", m.qualname, "x[j] - ub[j], direction +1", "the upper-bound event is x_j - ub_j crossing upwards", m.loc())
+    m, ev, body, dirs = event_of("grad_fixed_event")
+    zp = ev.params[-1]
+    jj, rr, al = [p for p in m.params if p != "self"][:3]
+    okb = body is not None and U(body) == f"self.flow.neg_aug_lag_deriv_x({zp}, {rr})[{jj}]"
+    dd = {}
+    for d, facts in dirs:
+        key = "lb" if ("truthy", al, None) in facts else ("ub" if ("falsy", al, None) in facts else "?")
+        dd[key] = d
+    rep.check(okb and dd == {"lb": "1.0", "ub": "-1.0"}, "event-sign-table", m.qualname, "flow_j, direction +1 at lb / -1 at ub",
+              f"a variable pinned at its lower bound is released when its flow -grad_j L crosses zero upwards, at its upper bound downwards (found body {U(body)[:60] if body is not None else None}, directions {dd})", m.loc())
 
 
 def feeds(prog: Program, rep) -> None:
